@@ -773,3 +773,142 @@ def analyse(tree, rules):
         for (r_, fn_) in sorted(handoffs):
             todo.append((fn_, r_))
     return results, total
+
+
+# ------------------------------------------------------------------ the integer converter, on classes of token text
+class StrV:
+    """the text of an integer token, known only by its class: which hex prefix it starts with ('' = none), and
+    whether that prefix has been stripped"""
+
+    def __init__(self, cls, stripped=False):
+        self.cls, self.stripped = cls, stripped
+
+
+class IntV:
+    def __init__(self, v):
+        self.v = v
+
+
+class SelfV:
+    pass
+
+
+class ConvInterp(Interp):
+    def __init__(self, fns, rules, oracle, cls):
+        super().__init__(fns, rules, oracle)
+        self.cls = cls
+        self.conversions = []       # (StrV, radix)
+        self.entry_fn = None
+
+    def e_Lit(self, e, env):
+        if e.get("ty") == "int":
+            try:
+                return IntV(int(e["v"]))
+            except (TypeError, ValueError):
+                return OPQ
+        if e.get("ty") == "str":
+            return ("lit", e.get("v"))
+        return super().e_Lit(e, env)
+
+    def e_Call(self, e, env):
+        fn = e["func"]
+        if fn.get("k") == "Path" and fn["path"]["s"].endswith("::from_str_radix"):
+            a = [self.ev(x, env) for x in e["args"]]
+            self.conversions.append((a[0] if a else None, a[1] if len(a) > 1 else None))
+            return OPQ
+        return super().e_Call(e, env)
+
+    def e_MethodCall(self, e, env):
+        m = e["method"]
+        if m in ("parse",) and not e["args"]:
+            r = self.ev(e["recv"], env)
+            self.conversions.append((r, IntV(10)))
+            return OPQ
+        if m in ("or_else", "or"):
+            r = self.ev(e["recv"], env)
+            if isinstance(r, Some):
+                return r
+            if r is NONE:
+                a = self.ev(e["args"][0], env)
+                return self.call_closure(a, []) if m == "or_else" else a
+            return OPQ
+        r = self.ev(e["recv"], env)
+        if isinstance(r, SelfV):
+            if m in ("as_str", "as_string"):
+                return StrV(self.cls)
+            for a in e["args"]:
+                self.ev(a, env)
+            return OPQ
+        if isinstance(r, StrV):
+            args = [self.ev(a, env) for a in e["args"]]
+            lit = args[0][1] if args and isinstance(args[0], tuple) and args[0][0] == "lit" else None
+            if m in ("strip_prefix",) and lit is not None and not r.stripped:
+                return Some(StrV(r.cls, True)) if (r.cls == lit and lit != "") else NONE
+            if m == "starts_with" and lit is not None and not r.stripped:
+                return BoolV(r.cls == lit and lit != "")
+            if m == "trim_start_matches" and lit is not None and not r.stripped:
+                return StrV(r.cls, True) if r.cls == lit else r
+            if m in ("trim", "as_str", "to_owned", "to_string", "clone", "as_ref"):
+                return r
+            if m in ("to_lowercase", "to_ascii_lowercase"):
+                return StrV(r.cls.lower(), r.stripped)
+            raise Unmodelled(f"string method {m}")
+        # fall back to the generic semantics, without evaluating the receiver twice
+        saved = e["recv"]
+        try:
+            e = dict(e)
+            e["recv"] = {"k": "__value", "v": r}
+            return super().e_MethodCall(e, env)
+        finally:
+            pass
+
+    def e___value(self, e, env):
+        return e["v"]
+
+
+def analyse_converter(tree, prefixes):
+    """Helpers::as_usize on every class of integer token the grammar accepts: the digits after the hex prefix go through
+    radix 16, a token without prefix goes through radix 10, and nothing else is converted.  -> [(class, problem)]"""
+    fns_all = synq.functions(tree)
+    f = next((v for k, v in fns_all.items() if k.endswith("::as_usize")), None)
+    if f is None:
+        return None
+    fns = {k: v for k, v in fns_all.items() if not k.startswith("test::") and "::" not in k}
+    out = []
+    for cls in list(prefixes) + [""]:
+        stack, n = [[]], 0
+        while stack and n < 64:
+            prefix = stack.pop()
+            orc = Oracle(prefix)
+            it = ConvInterp(fns, {}, orc, cls)
+            n += 1
+            try:
+                body = f.get("body") or []
+                it.block(body if isinstance(body, list) else body.get("stmts", []), {"self": SelfV()})
+            except ReturnSig:
+                pass
+            except PanicSig as p_:
+                out.append((cls, f"panics ({p_.why})"))
+                continue
+            except Unmodelled as u:
+                out.append((cls, f"unmodelled: {u}"))
+                continue
+            conv = it.conversions
+            want_radix = 16 if cls else 10
+            if len(conv) != 1:
+                out.append((cls, f"{len(conv)} conversions on one path"))
+            else:
+                s_, r_ = conv[0]
+                if not isinstance(s_, StrV) or not isinstance(r_, IntV):
+                    out.append((cls, "converted value or radix is not what the token text gives"))
+                elif r_.v != want_radix:
+                    out.append((cls, f"radix {r_.v}, expected {want_radix}"))
+                elif bool(s_.stripped) != bool(cls):
+                    out.append((cls, "the hex prefix is not stripped before the conversion" if cls else
+                                "something is stripped from a token without prefix"))
+            tr = orc.trace
+            for i in range(len(tr) - 1, len(prefix) - 1, -1):
+                c, k, _w = tr[i]
+                for alt in range(c + 1, k):
+                    stack.append([t[0] for t in tr[:i]] + [alt])
+    return out
